@@ -94,10 +94,16 @@ func (i Info) Hash(h hash.Hash) string {
 // AppendHash is like Hash except that it appends the output string to the
 // provided byte slice.
 func (i Info) AppendHash(dst []byte, h hash.Hash) []byte {
+	// The lists are sorted to make the hash independent of their order: sort
+	// copies, the slices (and the values of the forms' fields) are the caller's.
+	identities := append([]info.Identity(nil), i.Identity...)
+	features := append([]info.Feature(nil), i.Features...)
+	forms := append([]form.Data(nil), i.Form...)
+
 	// Hash identities
 	// TODO: does this match RFC 4790 § 9.3?
-	sort.Slice(i.Identity, func(a, b int) bool {
-		identI, identJ := i.Identity[a], i.Identity[b]
+	sort.Slice(identities, func(a, b int) bool {
+		identI, identJ := identities[a], identities[b]
 		if identI.Category != identJ.Category {
 			return identI.Category < identJ.Category
 		}
@@ -109,16 +115,16 @@ func (i Info) AppendHash(dst []byte, h hash.Hash) []byte {
 		}
 		return false
 	})
-	for _, ident := range i.Identity {
+	for _, ident := range identities {
 		/* #nosec */
 		fmt.Fprintf(h, "%s/%s/%s/%s<", ident.Category, ident.Type, ident.Lang, ident.Name)
 	}
 
 	// Hash features
-	sort.Slice(i.Features, func(a, b int) bool {
-		return i.Features[a].Var < i.Features[b].Var
+	sort.Slice(features, func(a, b int) bool {
+		return features[a].Var < features[b].Var
 	})
-	for _, f := range i.Features {
+	for _, f := range features {
 		/* #nosec */
 		io.WriteString(h, f.Var)
 		/* #nosec */
@@ -126,12 +132,12 @@ func (i Info) AppendHash(dst []byte, h hash.Hash) []byte {
 	}
 
 	// Hash forms
-	sort.Slice(i.Form, func(a, b int) bool {
-		typeA, _ := i.Form[a].GetString("FORM_TYPE")
-		typeB, _ := i.Form[b].GetString("FORM_TYPE")
+	sort.Slice(forms, func(a, b int) bool {
+		typeA, _ := forms[a].GetString("FORM_TYPE")
+		typeB, _ := forms[b].GetString("FORM_TYPE")
 		return typeA < typeB
 	})
-	for _, infoForm := range i.Form {
+	for _, infoForm := range forms {
 		var formType string
 		fields := make([]string, 0, infoForm.Len())
 		infoForm.ForFields(func(f form.FieldData) {
@@ -151,7 +157,8 @@ func (i Info) AppendHash(dst []byte, h hash.Hash) []byte {
 			io.WriteString(h, f)
 			/* #nosec */
 			io.WriteString(h, "<")
-			vals, _ := infoForm.Raw(f)
+			raw, _ := infoForm.Raw(f)
+			vals := append([]string(nil), raw...)
 			sort.Strings(vals)
 			for _, val := range vals {
 				/* #nosec */
